@@ -34,6 +34,10 @@ def compute_val_score(clf, X, y, batch_size, gemini_objective):
     selection_mask = np.arange(X.shape[1])
     if clf.dynamic and y is None:
         selection_mask = clf.get_selection()
+        if len(selection_mask) == 0:
+            # No feature is left: an affinity cannot be computed on an empty set of variables. The predictions no longer
+            # depend on the samples, so that the GEMINI is null whatever the affinity: keep all variables.
+            selection_mask = np.arange(X.shape[1])
     j = 0
     while j < len(X):
         X_batch = X[j:j + batch_size]
